@@ -144,10 +144,10 @@ def sweep_cases():
 
 def exit_paths(rng, full):
     ps = [['return'], ['raise'], ['sysexit0'], ['sysexit', ['none']]]
-    ints = [0, 1, 2, 3, 100, 127, 128, 254, 255]
-    ints += list(range(256)) if full else [rng.randint(4, 253) for _ in range(4)]
+    ints = [0, 1, 2, 3, 127, 128, 255]
+    ints += list(range(256)) if full else [rng.randint(4, 253) for _ in range(3)]
     ps += [['sysexit', ['int', n]] for n in sorted(set(ints))]
-    ps += [['sysexit', ['int', n]] for n in (256, 257, 511, -1, -256, 65536 + 7)]
+    ps += [['sysexit', ['int', n]] for n in ((256, 257, 511, -1, -256, 65536 + 7) if full else (256, -1))]
     ps += [['sysexit', ['bool', True]], ['sysexit', ['bool', False]], ['sysexit', ['str', 'bye']],
            ['sysexit', ['float']], ['sysexit', ['tuple', [['int', 7], ['int', 2]]]],
            ['sysexit', ['tuple', []]], ['sysexit', ['tuple', [['str', 'a']]]],
@@ -339,9 +339,14 @@ def nontrivial(c):
 
 def direct_monitors(res, c, o):
     """property clauses evaluated directly on the observation of a real child"""
-    if c['kind'] != 'real' or 'crash' in o:
+    if c['kind'] != 'real' or o.get('skipped'):
         return
     rp = dict(case=c, impl=o)
+    if 'crash' in o:
+        timed = 'ScenarioTimeout' in o['crash'] and 'join(0' in o['crash']
+        res.alarms.append(dict(signature='C19:timed-join-wrong' if timed else 'C19:real-child-scenario-failed',
+                               replay=rp, what='%s child ending by %s: %s' % (c['method'], c['path'], o['crash'])))
+        return
     if o['start_twice'] != 'assert':
         res.alarms.append(dict(signature='C19:start-twice-allowed', replay=rp,
                                what='a second start() of a %s process did not raise' % c['method']))
@@ -391,6 +396,7 @@ def correspond(res, tier, nworld, nfs):
     bad, where = evaluate('C19', cases, outs)
     for c, o in zip(cases, outs):
         direct_monitors(res, c, o)
+    bad = [b for b in bad if 'crash' not in outs[b[0]]]      # those are reported by direct_monitors
     for i, code in bad[:24]:
         c, o = cases[i], outs[i]
         entry = dict(case=c, impl=o, first_difference=where.get(i, 0))
@@ -439,7 +445,7 @@ def correspond(res, tier, nworld, nfs):
 def run(res):
     res.proof_step('Props/C19.v', extra_targets=['Model/ExitStatus.vo'],
                    kernels_needed=['K_exitstatus', 'K_procguard'])
-    nworld, nfs = (400, 60) if res.tier == 'quick' else (12000, 1500)
+    nworld, nfs = (300, 40) if res.tier == 'quick' else (12000, 1500)
     if res.broken:
         nworld, nfs = max(nworld, 4000), max(nfs, 400)      # failing-input search
     correspond(res, res.tier, nworld, nfs)
